@@ -234,6 +234,13 @@ def check_pair(case, ctx):
                     if any(abs(complex(a.point(q[0])) - zp) <= tol for q in others):
                         ctx.count('swap_check_same_location_other_parameter')
                         ok = True
+                if not ok:
+                    # a tangential touch (curves meeting at less than ~6 degrees) is decided by rounding: whether it is
+                    # reported at all may differ between the two operand orders; only transversal crossings are compared
+                    ta, tb = X.spec_tangent(s1, min(1.0, max(0.0, p[0]))), X.spec_tangent(s2, min(1.0, max(0.0, p[1])))
+                    if abs(ta) == 0 or abs(tb) == 0 or abs(ta.real * tb.imag - ta.imag * tb.real) < 0.1 * abs(ta) * abs(tb):
+                        ctx.count('swap_check_tangential_touch_skipped')
+                        ok = True
                 ctx.check(ok, 'swap_asymmetry/%s/%s' % (''.join(sorted(pair)), case['cfg']),
                           '%s.intersect found a crossing near (%r, %r) that the swapped call does not report: %r vs swapped %r'
                           % (nm, p[0], p[1], sorted(A), sorted(B)))
